@@ -15,8 +15,9 @@ git -C /repo worktree remove --force "$sb/repo" >/dev/null 2>&1
 rm -rf "$sb"; mkdir -p "$sb"
 rsync -a --exclude '.git' --exclude 'work' --exclude 'replays/*' --exclude 'seeded' /verif/ "$sb/verif/"
 sed -i "s#/verif/harness/target#$sb/verif/harness/target#" "$sb/verif/harness/.cargo/config.toml"
+sed -i "s#/verif/harness-rel/target#$sb/verif/harness-rel/target#" "$sb/verif/harness-rel/.cargo/config.toml"
 git -C /repo worktree add -f --detach "$sb/repo" HEAD >/dev/null 2>&1
-sed -i "s#/repo/crates#$sb/repo/crates#g" "$sb/verif/harness/Cargo.toml"
+sed -i "s#/repo/crates#$sb/repo/crates#g" "$sb/verif/harness/Cargo.toml" "$sb/verif/harness-rel/Cargo.toml"
 ( cd "$sb/repo" && git apply "$sd/patch.diff" ) || { echo "patch does not apply"; exit 2; }
 mkdir -p "$sd/results"
 export VERIF_REPO="$sb/repo"
